@@ -76,6 +76,12 @@ func init() {
 }
 
 var checks = map[string]*Check{
+	"C16": {ID: "C16", Parts: []Part{{Harness: "mcrew", Func: "C16", Race: true}}, Category: "model_checking", QuickDeadline: 240, ThoroughDeadline: 1500, GoMaxProcs: 1,
+		Engine: "E1+E2", DesignRef: "6/C16",
+		Technique: "exhaustive enumeration of operation/fault sequences on the real Service over a real bolt store with a memory==store oracle after every operation, plus stateless schedule exploration of concurrent clients with a brute-force linearizability oracle (all sequential orders, the service itself as reference)",
+		LevelText: "Every sequence of service operations and store up/down events up to the bound is run on the real mcrew Service and bolt file, comparing the in-memory crew with the stored crew after every operation; every schedule (within the deviation bound) of 2-3 concurrent clients is run under the controlled scheduler and its results and final state must equal those of some sequential order.",
+		LevelNote: "Trusted: bbolt (its internal locks are not scheduling points; a thread blocked there is seen as blocked). Storage failure is modelled as the store being closed / keys bolt rejects / unserialisable bindings, not as torn writes inside bolt.",
+		Assumptions: commonAssumptions},
 	"C11": {ID: "C11", Parts: []Part{{Harness: "core", Func: "C11"}}, Category: "exploration", QuickDeadline: 240, ThoroughDeadline: 1500, CrashIsViolation: true, Workers: 8,
 		Engine: "E1", DesignRef: "6/C11",
 		Technique: "bounded-exhaustive enumeration of looping script shapes x cancellation points (context cancelled at the k-th harness tick, pre-cancelled, pre-expired, real deadlines) x routing x concurrency, with a logical (tick-count) bound on progress after cancellation and a goroutine-leak check by runtime.Stack",
